@@ -48,6 +48,12 @@ transformations:
     type: field_name_mapping
     mapping:
       fieldA: mappedA
+      fieldB: mappedB
+      g: mappedG
+      base: mappedBase
+      y: mappedY
+  - id: strict
+    type: strict_field_mapping_failure
   - id: acond
     type: add_condition
     conditions:
@@ -102,6 +108,8 @@ def rule_doc(kind: str, pos: int) -> dict:
     elif kind == "failNPH":  # fails while a value BELOW A NOT is converted
         d["detection"]["flt"] = {"fieldB|expand": "%undefined%"}
         d["detection"]["condition"] = "sel and not flt"
+    elif kind == "failM":  # names the mapping's TARGET directly: no mapped field of this rule
+        d["detection"]["sel"] = {"mappedA": f"v{pos}"}
     elif kind == "okdrop":  # the pipeline drops every detection item the rule has
         d["detection"]["sel"] = {"fieldDrop": f"v{pos}"}
         d["logsource"]["category"] = "dropcat"  # (the one category no condition is added for: nothing is left)
